@@ -14,13 +14,12 @@ CHECK = {'level': 'exploration',
                  'a defect may be reported more than once with the same code: "abc[" (bare word + bracket) gives CIF_MISSING_SPACE twice, U+0080 under CIF 1.1 gives '
                  'CIF_DISALLOWED_CHAR twice (two rules); accepted',
                  'frame-not-allowed: the negative control is parsed with the default max_frame_depth; the CIF 1.1 row is parsed with default_encoding_name=UTF-8 forced',
-                 'known findings excluded by construction: F-NULLKEY-SPACE (":v" -> spurious CIF_MISSING_SPACE after the accepted CIF_NULL_KEY), F-KEYCOL (column counter '
-                 'misses the colon of a table key: an over-long line holding a key is measured one short per key), F-LASTLINE-LEN (an unterminated over-long last line is '
-                 'never measured)',
+                 'callbacks after the first one are not constrained by the property: codes outside the expected follow-up set are labelled (unlisted-follow-up:<code>), '
+                 'not failed (e.g. ":v" gives CIF_MISSING_SPACE after the accepted CIF_NULL_KEY)',
                  'one defect per document; LF line terminators only; loop packets compared as multisets'],
  'min_evaluations': 3000,
  'technique': 'property-based testing (rapidcheck): well-formed host x planting table (defect class x position); oracle from the recovery table: first code, line window, '
-              'follow-up set, recovered dump, default-handler result, silent negative control',
+              'recovered dump, default-handler result, silent negative control',
  'level_text': 'Generated search over host documents x defect classes x positions under ASan/UBSan with allocation balance; every case also parses the un-planted host '
                '(must be silent) and re-parses the planted bytes with the default abort handler. Bounded document sizes (<= ~3 blocks, values <= ~10 characters, composites '
                '<= depth 3).',
